@@ -723,6 +723,14 @@ def no_unordered_iteration(ctx, modnames: Iterable[str], why: str):
                             ctx.ok(f"{cq.split(':')[1]}.{meth.name}/iteration over the set self.{it.args[0].attr} is ordered", f"{repo.modules[m].relpath}:{it.lineno}", nontrivial=False)
 
 
+def parse_key(k: str) -> ast.AST:
+    """a guard key (canonical text over access paths, where `[*]` stands for `any element`) back as an expression"""
+    try:
+        return ast.parse(k.replace("[*]", "[_STAR_]"), mode="eval").body
+    except SyntaxError:
+        return ast.Name(id=k, ctx=ast.Load())
+
+
 # --------------------------------------------------------------------------- what a predicate function accepts
 class AcceptCondition:
     """The condition under which a predicate function returns a truthy value, as a function of the atomic tests it makes -
@@ -754,16 +762,32 @@ class AcceptCondition:
 
     def _parse(self, k: str) -> ast.AST:
         if k not in self._parsed:
-            try:
-                self._parsed[k] = ast.parse(k, mode="eval").body
-            except SyntaxError:
-                self._parsed[k] = ast.Name(id=k, ctx=ast.Load())
+            self._parsed[k] = parse_key(k)
         return self._parsed[k]
 
     def _leaf(self, e: ast.AST) -> Tuple[str, bool]:
-        return self._canon(self.res, e, True)
+        k, pol = self._canon(self.res, e, True)
+        return k.replace("[_STAR_]", "[*]"), pol
+
+    @staticmethod
+    def _boolcmp(e: ast.AST):
+        """`a == bool(b)` / `a != bool(b)` / `bool(a) != bool(b)`: (a, b, equal?) - an equivalence of two truth values"""
+        if isinstance(e, ast.Compare) and len(e.ops) == 1 and isinstance(e.ops[0], (ast.Eq, ast.NotEq, ast.Is, ast.IsNot)):
+            l, r = e.left, e.comparators[0]
+
+            def strip(x):
+                if isinstance(x, ast.Call) and isinstance(x.func, ast.Name) and x.func.id == "bool" and len(x.args) == 1:
+                    return x.args[0], True
+                return x, False
+            (l2, lb), (r2, rb) = strip(l), strip(r)
+            if lb or rb:
+                return l2, r2, isinstance(e.ops[0], (ast.Eq, ast.Is))
+        return None
 
     def _leaves(self, e: ast.AST) -> Set[str]:
+        bc = self._boolcmp(e)
+        if bc:
+            return self._leaves(bc[0]) | self._leaves(bc[1])
         if isinstance(e, ast.BoolOp):
             return set().union(*[self._leaves(x) for x in e.values])
         if isinstance(e, ast.UnaryOp) and isinstance(e.op, ast.Not):
@@ -775,6 +799,9 @@ class AcceptCondition:
         return {self._leaf(e)[0]}
 
     def _ev(self, e: ast.AST, v: Dict[str, bool]) -> bool:
+        bc = self._boolcmp(e)
+        if bc:
+            return (self._ev(bc[0], v) == self._ev(bc[1], v)) == bc[2]
         if isinstance(e, ast.BoolOp):
             vals = [self._ev(x, v) for x in e.values]
             return all(vals) if isinstance(e.op, ast.And) else any(vals)
